@@ -394,6 +394,10 @@ def r14_state(ctx):
     ctx.borrow(c03.r03_3_setattr, 'R14.0')
     ctx.borrow(c03.r03_3_init, 'R14.0')
     ctx.borrow(c03.r03_3_copy, 'R14.0')
+    # the same for meta messages (shared with C15 R15.5): an UnknownMetaMessage made without a payload has data == () in vars(),
+    # as the one eval(repr(x)) builds
+    from . import c15
+    ctx.borrow(c15.r15_canonical, 'R14.0')
 
 
 RULES.append(('R14.0', r14_state))
